@@ -4,9 +4,17 @@
    arc_deriv, arc_as_cubic_curves, arc_as_quad_curves).  Only statements,
    `exact`, Print Assumptions and non-vacuity examples live here.
 
-   Naming: _partial = proved under the stated extra hypothesis
-           _refuted = the faithful model of the current code violates the
-                      property's statement (witness given). *)
+   The model carries two variant flags; the harness detects which variant the
+   implementation under test runs and executes the model with those flags:
+     fx  (arc_init)  : false = pinned code, radical = 0 if np.isclose(radicand, 0)
+                       true  = repaired,    radical = 0 if (scaled or radicand <= 0)
+     dfx (arc_deriv) : false = pinned code, the n % 4 == 0 branch lacks the factor k
+                       true  = repaired,    every branch multiplies by k
+
+   Naming: no suffix = the property's statement at full strength
+           _partial  = proved under the stated extra hypothesis
+           _refuted  = the faithful model of the PINNED code violates the
+                       property's statement (witness given). *)
 From Coq Require Import ZArith List Bool Reals Lra.
 Set Warnings "-ambiguous-paths".
 From Coquelicot Require Import Coquelicot.
@@ -17,50 +25,45 @@ Local Open Scope R_scope.
 
 Section C04.
   (* every admissible constructor call: start != end, rx != 0, ry != 0, any
-     rotation (degrees), any flags *)
+     rotation (degrees), any flags; either variant of the radical rule *)
   Variables start radius end_ : Cplx R.
   Variable rotation : R.
   Variables large sweep : bool.
+  Variable fx : bool.
   Hypothesis Hse : start <> end_.
   Hypothesis Hrx : fst radius <> 0.
   Hypothesis Hry : snd radius <> 0.
 
-  Let P := arc_init NumR NumTR start radius rotation large sweep end_.
-  Let u1 := arc_u1_of NumR NumTR start radius rotation large sweep end_.
-  Let u2 := arc_u2_of NumR NumTR start radius rotation large sweep end_.
+  Let P := arc_init_v NumR NumTR fx start radius rotation large sweep end_.
+  Let u1 := arc_u1_of NumR NumTR fx start radius rotation large sweep end_.
+  Let u2 := arc_u2_of NumR NumTR fx start radius rotation large sweep end_.
   Let rc := arc_rc_of NumR NumTR start radius rotation end_.       (* radius_check *)
   Let radicand := arc_radicand_of NumR NumTR start radius rotation end_.
-  (* "the np.isclose(radicand, 0) snap does not change the value":
-     isclose0 radicand = true -> radicand = 0, i.e. radicand = 0 or radicand > 1e-8 *)
-  Let snap_ok := snap_inactive start radius end_ rotation.
+  (* "the rule that sets the radical to 0 does not change the value":
+     fx = false: isclose0 radicand = true -> radicand = 0 (radicand = 0 or > 1e-8)
+     fx = true : True *)
+  Let snap_ok := snap_inactive start radius end_ rotation fx.
+  (* the radical is 0 iff radicand <= thr: 1e-8 for the pinned code, 0 for the repaired *)
+  Let thr := snap_thr_of fx.
 
   (* u1, u2 (after np.clip, which provably never acts over R) are unit vectors *)
   Theorem C04_unit_partial : snap_ok ->
     fst u1 * fst u1 + snd u1 * snd u1 = 1 /\ fst u2 * fst u2 + snd u2 * snd u2 = 1.
-  Proof. exact (arc_unit start radius end_ rotation large sweep Hse Hrx Hry). Qed.
+  Proof. exact (arc_unit start radius end_ rotation large sweep fx Hse Hrx Hry). Qed.
 
   Theorem C04_point0_partial : snap_ok -> arc_point NumR NumTR P 0 = start.
-  Proof. exact (arc_point0 start radius end_ rotation large sweep Hse Hrx Hry). Qed.
+  Proof. exact (arc_point0 start radius end_ rotation large sweep fx Hse Hrx Hry). Qed.
   Theorem C04_point1_partial : snap_ok -> arc_point NumR NumTR P 1 = end_.
-  Proof. exact (arc_point1 start radius end_ rotation large sweep Hse Hrx Hry). Qed.
-
-  (* ... and the hypothesis is necessary: point(0) = start only if the snap is inactive;
-     for 0 < radicand <= 1e-8 the arc does NOT start at start *)
+  Proof. exact (arc_point1 start radius end_ rotation large sweep fx Hse Hrx Hry). Qed.
+  (* ... and the hypothesis is necessary *)
   Theorem C04_point0_only_if_snap_inactive : arc_point NumR NumTR P 0 = start -> snap_ok.
-  Proof. exact (arc_point0_only_if start radius end_ rotation large sweep Hse Hrx Hry). Qed.
-  Theorem C04_point0_snapped_refuted :
-    0 < radicand <= atol8 NumR -> arc_point NumR NumTR P 0 <> start.
-  Proof. exact (arc_point0_snapped start radius end_ rotation large sweep Hse Hrx Hry). Qed.
-
-  Theorem C04_point1_snapped_refuted :
-    0 < radicand <= atol8 NumR -> arc_point NumR NumTR P 1 <> end_.
-  Proof. exact (arc_point1_snapped start radius end_ rotation large sweep Hse Hrx Hry). Qed.
+  Proof. exact (arc_point0_only_if start radius end_ rotation large sweep fx Hse Hrx Hry). Qed.
 
   (* every point(t) lies on the ellipse with the STORED centre, radii, rotation
      (u1transform maps that ellipse to the unit circle) — unconditional *)
   Theorem C04_on_ellipse : forall t,
     cnorm2 NumR (arc_u1transform NumR P (arc_point NumR NumTR P t)) = 1.
-  Proof. intros t. exact (on_ellipse_init start radius rotation large sweep end_ t Hse Hrx Hry). Qed.
+  Proof. intros t. exact (on_ellipse_init fx start radius rotation large sweep end_ t Hse Hrx Hry). Qed.
 
   (* radii: enlarged by exactly sqrt(radius_check) when no ellipse fits, and
      then the ellipse just fits (radicand = 0); otherwise |rx|, |ry| unchanged *)
@@ -70,12 +73,10 @@ Section C04.
     (rc <= 1 -> a_radius P = (Rabs (fst radius), Rabs (snd radius))).
   Proof.
     split.
-    - exact (arc_scaled start radius end_ rotation large sweep Hse Hrx Hry).
-    - exact (arc_unscaled start radius end_ rotation large sweep).
+    - exact (arc_scaled start radius end_ rotation large sweep fx Hse Hrx Hry).
+    - exact (arc_unscaled start radius end_ rotation large sweep fx).
   Qed.
-  (* no smaller common factor admits an ellipse through both end points: if an
-     ellipse with the same rotation and radii lam*|rx|, lam*|ry| (any centre)
-     contains start and end, then lam^2 >= radius_check *)
+  (* no smaller common factor admits an ellipse through both end points *)
   Theorem C04_scale_necessary : forall (Q : ArcP R) lam,
     a_rot Q = arc_rotm_of NumTR rotation -> 0 < lam ->
     a_radius Q = (lam * Rabs (fst radius), lam * Rabs (snd radius)) ->
@@ -84,66 +85,110 @@ Section C04.
     rc <= lam * lam.
   Proof. exact (scale_necessary start radius end_ rotation Hrx Hry). Qed.
 
-  (* flags.  Unconditional (also inside the snapped region, where the arc
-     degenerates to a half ellipse: |delta| = 180) *)
+  (* flags: unconditional, both variants *)
   Theorem C04_sweep_sign : a_delta P <> 0 /\ (0 < a_delta P <-> sweep = true).
-  Proof. exact (arc_sweep_sign start radius end_ rotation large sweep Hse Hrx Hry). Qed.
+  Proof. exact (arc_sweep_sign start radius end_ rotation large sweep fx Hse Hrx Hry). Qed.
   Theorem C04_large : Rabs (a_delta P) <> 180 -> (180 < Rabs (a_delta P) <-> large = true).
-  Proof. exact (arc_large_flag start radius end_ rotation large sweep Hse Hrx Hry). Qed.
-  (* when is |delta| = 180 ?  exactly when radicand <= 1e-8 (radii scaled, exactly
-     fitting, or snapped) *)
-  Theorem C04_large_strict : atol8 NumR < radicand -> (180 < Rabs (a_delta P) <-> large = true).
-  Proof. exact (arc_large_strict start radius end_ rotation large sweep Hse Hrx Hry). Qed.
-  Theorem C04_half_when_radicand_small : radicand <= atol8 NumR -> Rabs (a_delta P) = 180.
-  Proof. exact (arc_half_when_snapped start radius end_ rotation large sweep Hse Hrx Hry). Qed.
+  Proof. exact (arc_large_flag start radius end_ rotation large sweep fx Hse Hrx Hry). Qed.
+  (* |delta| = 180 exactly when radicand <= thr *)
+  Theorem C04_large_strict : thr < radicand -> (180 < Rabs (a_delta P) <-> large = true).
+  Proof. exact (arc_large_strict start radius end_ rotation large sweep fx Hse Hrx Hry). Qed.
+  Theorem C04_half_when_radicand_small : radicand <= thr -> Rabs (a_delta P) = 180.
+  Proof. exact (arc_half_when_snapped start radius end_ rotation large sweep fx Hse Hrx Hry). Qed.
   Theorem C04_delta_range : Rabs (a_delta P) <= 360.
-  Proof. exact (arc_delta_range start radius end_ rotation large sweep Hse Hrx Hry). Qed.
-  (* the eccentric angle theta + t*delta moves strictly monotonically in the
-     direction selected by sweep *)
+  Proof. exact (arc_delta_range start radius end_ rotation large sweep fx Hse Hrx Hry). Qed.
   Theorem C04_angle_monotone : forall t1 t2, t1 < t2 ->
     if sweep then a_theta P + t1 * a_delta P < a_theta P + t2 * a_delta P
     else a_theta P + t2 * a_delta P < a_theta P + t1 * a_delta P.
-  Proof. exact (arc_angle_monotone start radius end_ rotation large sweep Hse Hrx Hry). Qed.
-  (* the full case table of delta *)
+  Proof. exact (arc_angle_monotone start radius end_ rotation large sweep fx Hse Hrx Hry). Qed.
   Theorem C04_delta_cases :
-    (arc_radical NumR NumTR radicand = 0 /\ a_delta P = if sweep then 180 else -180) \/
-    (0 < arc_radical NumR NumTR radicand /\
+    let radical := arc_radical_of NumR NumTR fx start radius rotation end_ in
+    (radical = 0 /\ a_delta P = if sweep then 180 else -180) \/
+    (0 < radical /\
      ((large = true /\ sweep = true /\ 180 < a_delta P < 360) \/
       (large = false /\ sweep = false /\ -180 < a_delta P < 0) \/
       (large = false /\ sweep = true /\ 0 < a_delta P < 180) \/
       (large = true /\ sweep = false /\ -360 < a_delta P < -180))).
-  Proof. exact (arc_delta_cases start radius end_ rotation large sweep Hse Hrx Hry). Qed.
+  Proof. exact (arc_delta_cases start radius end_ rotation large sweep fx Hse Hrx Hry). Qed.
 
-  (* derivative(t, n) is the n-th t-derivative of point(t): true for every
-     n >= 1 with n mod 4 <> 0 ... *)
-  Theorem C04_deriv_partial : forall t n, (1 <= n)%Z -> (n mod 4 <> 0)%Z ->
-    exists d, arc_deriv NumR NumTR P t n = Some d /\
+  (* derivative(t, n) is the n-th t-derivative of point(t), every n >= 1:
+     FULL for the repaired derivative (dfx = true) *)
+  Theorem C04_deriv : forall t n, (1 <= n)%Z ->
+    exists d, arc_deriv NumR NumTR true P t n = Some d /\
       is_derive_n (fun u => fst (arc_point NumR NumTR P u)) (Z.to_nat n) t (fst d) /\
       is_derive_n (fun u => snd (arc_point NumR NumTR P u)) (Z.to_nat n) t (snd d).
-  Proof. exact (arc_deriv_correct P (arc_init_rot _ _ _ _ _ _)). Qed.
-  (* ... for n mod 4 = 0 the code omits the chain-rule factor (delta*pi/180)^n:
-     the n-th derivative is that factor times the returned value *)
+  Proof. exact (arc_deriv_full P (arc_init_rot _ _ _ _ _ _ _)). Qed.
+  (* pinned derivative (dfx = false): true for n mod 4 <> 0 ... *)
+  Theorem C04_deriv_partial : forall t n, (1 <= n)%Z -> (n mod 4 <> 0)%Z ->
+    exists d, arc_deriv NumR NumTR false P t n = Some d /\
+      is_derive_n (fun u => fst (arc_point NumR NumTR P u)) (Z.to_nat n) t (fst d) /\
+      is_derive_n (fun u => snd (arc_point NumR NumTR P u)) (Z.to_nat n) t (snd d).
+  Proof. exact (arc_deriv_correct P (arc_init_rot _ _ _ _ _ _ _) false). Qed.
+  (* ... for n mod 4 = 0 it omits the chain-rule factor (delta*pi/180)^n *)
   Theorem C04_deriv_mod4_is_0 : forall t n, (1 <= n)%Z -> (n mod 4 = 0)%Z ->
-    exists d, arc_deriv NumR NumTR P t n = Some d /\
+    exists d, arc_deriv NumR NumTR false P t n = Some d /\
       is_derive_n (fun u => fst (arc_point NumR NumTR P u)) (Z.to_nat n) t
                   ((a_delta P * PI / 180) ^ Z.to_nat n * fst d) /\
       is_derive_n (fun u => snd (arc_point NumR NumTR P u)) (Z.to_nat n) t
                   ((a_delta P * PI / 180) ^ Z.to_nat n * snd d).
-  Proof. exact (arc_deriv_mod4_0 P (arc_init_rot _ _ _ _ _ _)). Qed.
+  Proof. exact (arc_deriv_mod4_0 P (arc_init_rot _ _ _ _ _ _ _)). Qed.
 End C04.
 
-(* derivative(t, 4) is NOT the 4th derivative: witness the unit half circle
+(* ---- repaired radical rule (fx = true): FULL strength, no side hypothesis ---- *)
+Section C04_repaired.
+  Variables start radius end_ : Cplx R.
+  Variable rotation : R.
+  Variables large sweep : bool.
+  Hypothesis Hse : start <> end_.
+  Hypothesis Hrx : fst radius <> 0.
+  Hypothesis Hry : snd radius <> 0.
+  Let P := arc_init_v NumR NumTR true start radius rotation large sweep end_.
+  Let u1 := arc_u1_of NumR NumTR true start radius rotation large sweep end_.
+  Let u2 := arc_u2_of NumR NumTR true start radius rotation large sweep end_.
+
+  Theorem C04_unit :
+    fst u1 * fst u1 + snd u1 * snd u1 = 1 /\ fst u2 * fst u2 + snd u2 * snd u2 = 1.
+  Proof. exact (arc_unit start radius end_ rotation large sweep true Hse Hrx Hry I). Qed.
+  Theorem C04_point0 : arc_point NumR NumTR P 0 = start.
+  Proof. exact (arc_point0 start radius end_ rotation large sweep true Hse Hrx Hry I). Qed.
+  Theorem C04_point1 : arc_point NumR NumTR P 1 = end_.
+  Proof. exact (arc_point1 start radius end_ rotation large sweep true Hse Hrx Hry I). Qed.
+End C04_repaired.
+
+(* ---- pinned radical rule (fx = false): the snapped region ---- *)
+Section C04_pinned.
+  Variables start radius end_ : Cplx R.
+  Variable rotation : R.
+  Variables large sweep : bool.
+  Hypothesis Hse : start <> end_.
+  Hypothesis Hrx : fst radius <> 0.
+  Hypothesis Hry : snd radius <> 0.
+  Let P := arc_init_v NumR NumTR false start radius rotation large sweep end_.
+  Let radicand := arc_radicand_of NumR NumTR start radius rotation end_.
+  (* for 0 < radicand <= 1e-8 the arc neither starts at start nor ends at end *)
+  Theorem C04_point0_snapped_refuted :
+    0 < radicand <= atol8 NumR -> arc_point NumR NumTR P 0 <> start.
+  Proof. exact (arc_point0_snapped start radius end_ rotation large sweep false Hse Hrx Hry eq_refl). Qed.
+  Theorem C04_point1_snapped_refuted :
+    0 < radicand <= atol8 NumR -> arc_point NumR NumTR P 1 <> end_.
+  Proof. exact (arc_point1_snapped start radius end_ rotation large sweep false Hse Hrx Hry eq_refl). Qed.
+End C04_pinned.
+
+(* pinned derivative(t, 4) is NOT the 4th derivative: witness the unit half circle
    W = Arc(start=1, radius=1+1j, rotation=0, large_arc=0, sweep=1, end=-1) *)
 Theorem C04_deriv4_refuted :
-  exists t d, arc_deriv NumR NumTR W t 4 = Some d /\
+  exists t d, arc_deriv NumR NumTR false W t 4 = Some d /\
     ~ is_derive_n (fun u => fst (arc_point NumR NumTR W u)) 4 t (fst d).
 Proof. exact arc_deriv4_refuted. Qed.
 
-(* point(0) = start fails on a concrete admissible arc inside the snapped
-   region: Arc(start=0, radius=(1+2^-30)+1j, rotation=0, any flags, end=2) *)
+(* pinned radical rule: point(0) = start and point(1) = end fail on a concrete admissible
+   arc inside the snapped region: Arc(start=0, radius=(1+2^-30)+1j, rotation=0, any flags, end=2) *)
 Theorem C04_point0_refuted : forall large sweep,
-  arc_point NumR NumTR (arc_init NumR NumTR Sstart Srad 0 large sweep Send) 0 <> Sstart.
+  arc_point NumR NumTR (arc_init_v NumR NumTR false Sstart Srad 0 large sweep Send) 0 <> Sstart.
 Proof. exact S_point0_ne. Qed.
+Theorem C04_point1_refuted : forall large sweep,
+  arc_point NumR NumTR (arc_init_v NumR NumTR false Sstart Srad 0 large sweep Send) 1 <> Send.
+Proof. exact S_point1_ne. Qed.
 
 (* the cubic / quadratic approximations: curves >= 1 pieces, chained from
    self.start to self.end.  Holds for ANY carrier (no algebraic law used),
@@ -168,7 +213,7 @@ End C04_approx.
 (* non-vacuity: the hypotheses are satisfiable, both regimes occur *)
 Example C04_nonvacuous_admissible : Wstart <> Wend /\ fst Wrad <> 0 /\ snd Wrad <> 0.
 Proof. exact W_adm. Qed.
-Example C04_nonvacuous_snap_ok : snap_inactive Wstart Wrad Wend 0.
+Example C04_nonvacuous_snap_ok : snap_inactive Wstart Wrad Wend 0 false.
 Proof.
   intros _. destruct W_adm as [A [B C]].
   apply (radicand_scaled Wstart Wrad Wend 0 A B C). rewrite W_rc. lra.
@@ -183,8 +228,6 @@ Print Assumptions C04_unit_partial.
 Print Assumptions C04_point0_partial.
 Print Assumptions C04_point1_partial.
 Print Assumptions C04_point0_only_if_snap_inactive.
-Print Assumptions C04_point0_snapped_refuted.
-Print Assumptions C04_point1_snapped_refuted.
 Print Assumptions C04_on_ellipse.
 Print Assumptions C04_scale_minimal.
 Print Assumptions C04_scale_necessary.
@@ -195,10 +238,17 @@ Print Assumptions C04_half_when_radicand_small.
 Print Assumptions C04_delta_range.
 Print Assumptions C04_angle_monotone.
 Print Assumptions C04_delta_cases.
+Print Assumptions C04_deriv.
 Print Assumptions C04_deriv_partial.
 Print Assumptions C04_deriv_mod4_is_0.
+Print Assumptions C04_unit.
+Print Assumptions C04_point0.
+Print Assumptions C04_point1.
+Print Assumptions C04_point0_snapped_refuted.
+Print Assumptions C04_point1_snapped_refuted.
 Print Assumptions C04_deriv4_refuted.
 Print Assumptions C04_point0_refuted.
+Print Assumptions C04_point1_refuted.
 Print Assumptions C04_approx_ends_cubic.
 Print Assumptions C04_approx_ends_quad.
 Print Assumptions C04_chain_index_form.
